@@ -58,7 +58,7 @@ func kernelItems(r *rt.Run) ([]item, map[string]any) {
 		for _, red := range redundant {
 			ts := toks(t, red)
 			for _, st := range styles {
-				out = append(out, item{Cls: "expr", Src: render(ts, st), Toks: ts, ML: st == 2 && hasBinOp(ts), Tag: fmt.Sprintf("%s/s%d/r%d", tag, st, red)})
+				out = append(out, item{Cls: "expr", Src: render(ts, st), Toks: ts, ML: (st == 2 || st >= 4) && hasBinOp(ts), Tag: fmt.Sprintf("%s/s%d/r%d", tag, st, red)})
 			}
 		}
 	}
@@ -68,7 +68,7 @@ func kernelItems(r *rt.Run) ([]item, map[string]any) {
 		for _, k := range []string{"bin", "par"} {
 			for _, l := range richLeaves {
 				for _, rr := range richLeaves[:3] {
-					add(T{k, op, l, rr}, "all15", []int{0, 1, 2, 3}, []int{0, 2})
+					add(T{k, op, l, rr}, "all15", []int{0, 1, 2, 3, 5}, []int{0, 2})
 				}
 			}
 		}
@@ -96,9 +96,9 @@ func kernelItems(r *rt.Run) ([]item, map[string]any) {
 			continue
 		}
 		n3++
-		st := []int{i % 4}
+		st := []int{i % 6}
 		if i%16 == 0 {
-			st = []int{0, 1, 2, 3}
+			st = []int{0, 1, 2, 3, 4, 5}
 		}
 		add(t, "depth3", st, []int{0})
 	}
@@ -111,7 +111,7 @@ func kernelItems(r *rt.Run) ([]item, map[string]any) {
 	}
 	for k := 0; k < deep; k++ {
 		t := randTree(r, 4+r.Rand.Intn(2))
-		add(t, "deep", []int{r.Rand.Intn(4)}, []int{r.Rand.Intn(3)})
+		add(t, "deep", []int{r.Rand.Intn(6)}, []int{r.Rand.Intn(3)})
 	}
 	_ = sampled
 	return out, map[string]any{"kernel_depth2_trees": n2, "kernel_trees_depth_le3_in_model": nAll, "kernel_depth3_parseable_trees_run": n3, "kernel_deep_random": deep, "kernel_exprs": len(out)}
